@@ -22,6 +22,7 @@ from checks import c05_doc as D
 
 sys.path.insert(0, os.path.join(C.ROOT, "tools"))
 import translate_errf  # noqa: E402
+import translate_counters  # noqa: E402
 from cxx2lean import Refuse  # noqa: E402
 
 EPS2 = 2.0 * 2.0 ** -52            # issmall threshold
@@ -1065,6 +1066,42 @@ def shrink(exe, line, still_fails):
     return mk(rows)
 
 
+MIN_CAP = {"uns": 32, "sgn": 31, "flt": 53}        # = Vita.C05.Counters.minCap (the Lean side decides; this names the row)
+
+
+def regen_counters(chk):
+    """GenCounters.lean from the clang AST (cached by the hash of the repo tree + tool + TU); -> (rows, narrow rows)"""
+    import hashlib
+    gen = os.path.join(C.LEAN, "Vita", "C05", "GenCounters.lean")
+    tool = os.path.join(C.ROOT, "tools", "translate_counters.py")
+    tu = os.path.join(C.ROOT, "tools", "tu", "counters_tu.cc")
+    key = C.repo_tree_hash(open(tool).read() + open(tu).read())
+    stamp = os.path.join(C.BUILD, "c05_counters.stamp")
+    cur = hashlib.sha256(open(gen, "rb").read()).hexdigest() if os.path.exists(gen) else ""
+    rows = None
+    if os.path.exists(stamp):
+        try:
+            st = json.load(open(stamp))
+            if st.get("key") == key and st.get("gen") == cur:
+                rows = [tuple(r[:3]) + (tuple(r[3]),) for r in st["rows"]]
+        except (ValueError, KeyError):
+            rows = None
+    if rows is None:
+        rows, changed = translate_counters.emit(gen)
+        cur = hashlib.sha256(open(gen, "rb").read()).hexdigest()
+        os.makedirs(C.BUILD, exist_ok=True)
+        with open(stamp, "w") as f:
+            json.dump({"key": key, "gen": cur, "rows": rows}, f)
+    chk.cov["counter_table_rows"] = len(rows)
+    chk.cov["counter_table_updates"] = sum(1 for r in rows if r[2] == "update")
+    ints = [r[3][2] for r in rows if r[3][1] != "flt"]
+    flts = [r[3][2] for r in rows if r[3][1] == "flt"]
+    chk.cov["narrowest_integer_counter_bits"] = min(ints) if ints else None
+    chk.cov["narrowest_floating_accumulator_bits"] = min(flts) if flts else None
+    narrow = [r for r in rows if r[3][2] < MIN_CAP[r[3][1]]]
+    return rows, narrow
+
+
 def run(chk, replay=None):
     rng = C.SplitMix(chk.seed)
     broken = []
@@ -1078,6 +1115,14 @@ def run(chk, replay=None):
         # Gen.lean keeps its last (committed) content: the driver still runs, the differential below
         # compares the code with the old text
         broken.append("translator tools/translate_errf.py refuses the current evaluator.tcc / utility.h: %s" % e)
+    # the declared type of every counter / accumulator of the evaluators -> Vita/C05/GenCounters.lean
+    try:
+        _, narrow = regen_counters(chk)
+        for o, nm, role, (ct, kind, cap) in narrow[:3]:
+            broken.append(f"counter `{nm}` ({role} of {o}) is declared `{ct}`: it counts exactly up to 2^{cap} only, the "
+                          f"model assumes at least 2^{MIN_CAP[kind]} (obligation generated_counters_wide_enough)")
+    except Refuse as e:
+        broken.append("translator tools/translate_counters.py refuses the current evaluators / classifiers: %s" % e)
     ok, out = C.lake_build(["c05_driver"])
     drv_ok = ok
     if not ok:
